@@ -371,3 +371,36 @@ func init() {
 		run: clusterRun,
 	}
 }
+
+func init() {
+	dagProfile := func(name string) *profile {
+		return &profile{
+			config: func(r *RNG, thorough bool) *RunConfig {
+				cfg := baseConfig(name, r, thorough)
+				if cfg.N0 > 6 {
+					cfg.N0 = 6
+					cfg.Stores = cfg.Stores[:6]
+				}
+				cfg.PSubmit = 0.3
+				cfg.NilTx = true
+				cfg.Variants = 6
+				if thorough {
+					cfg.Variants = 14
+				}
+				withMembership(cfg, r, 0.3)
+				if name == "C15" {
+					mixStores(cfg, r, 0.3)
+				}
+				return cfg
+			},
+			run: func(c *Cluster, spec *runSpec) {
+				c.genesis()
+				c.drive(spec)
+				c.finalChecks(spec)
+				c.dagReplay(c.cfg.Variants)
+			},
+		}
+	}
+	profiles["C03"] = dagProfile("C03")
+	profiles["C15"] = dagProfile("C15")
+}
